@@ -79,8 +79,17 @@ func checkLoopVarCapture(e *Env) {
 						for _, ref := range *mc.Referrers() {
 							switch x := ref.(type) {
 							case *ssa.Call:
-								// called on the spot, or handed to a call that runs while the iteration lasts
-								continue
+								// called on the spot ...
+								if x.Call.Value == ssa.Value(mc) {
+									continue
+								}
+								// ... or handed to a call that runs it while the iteration lasts: a standard-library
+								// function known to call its argument synchronously, or a function of the module whose
+								// parameter is only ever called
+								if !keepsFuncArgument(x, mc) {
+									continue
+								}
+								escapes = "handed to " + calleeNameCI(x) + ", which may keep it"
 							case *ssa.Defer:
 								if x.Call.Value == ssa.Value(mc) {
 									escapes = "deferred"
@@ -126,4 +135,39 @@ func checkLoopVarCapture(e *Env) {
 	if nBad == 0 {
 		r.OK("core.loopvar", "closures-in-loops", "", fmt.Sprintf("%d closures made inside loops in the module: none that outlives its iteration captures a variable shared between iterations", nClosures))
 	}
+}
+
+// keepsFuncArgument: may the callee retain the function value it is handed (run it after the iteration)?
+func keepsFuncArgument(c *ssa.Call, fv ssa.Value) bool {
+	if _, isBuiltin := c.Call.Value.(*ssa.Builtin); isBuiltin {
+		return false // append/copy take it through a slice, whose element store is seen as a store
+	}
+	h := c.Call.StaticCallee()
+	if h == nil {
+		return true
+	}
+	if h.Pkg != nil {
+		switch h.Pkg.Pkg.Path() {
+		case "sort", "slices", "strings", "bytes", "maps", "unicode", "path/filepath", "io/fs", "go/ast", "regexp":
+			return false // Slice, SortFunc, Map, FieldsFunc, IndexFunc, Walk, Inspect, ReplaceAllStringFunc: synchronous
+		case "sync":
+			return false // Once.Do, OnceFunc results are called by the caller
+		}
+	}
+	if len(h.Blocks) == 0 {
+		return true
+	}
+	// a function with a body: the parameter that receives the value is only ever called
+	for i, a := range c.Call.Args {
+		if a != fv || i >= len(h.Params) {
+			continue
+		}
+		for _, ref := range *h.Params[i].Referrers() {
+			call, ok := ref.(*ssa.Call)
+			if !ok || call.Call.Value != ssa.Value(h.Params[i]) {
+				return true
+			}
+		}
+	}
+	return false
 }
